@@ -21,7 +21,7 @@ TEMPLATES = ("det_{id}.wav", "ev_{id}_{start:.3f}_{end:.3f}.wav", "d{id:03d}-{du
              "r_{id}_{duration}.wav", "{duration}_{id}.raw")
 
 
-def random_pipeline_case(rng, max_windows=40, want_saver=None, want_stop=False, line_mode=False, many_detections=False):
+def random_pipeline_case(rng, max_windows=40, want_saver=None, want_stop=False, line_mode=False, many_detections=False, allow_hop=False):
     case = AC.random_split_case(rng, max_windows=max_windows, small_rate=True, allow_partial=True)
     # the tokenizer worker splits an AudioReader: durations are counted in the reader's block duration
     case["w"] = case["block"] / case["rate"]
@@ -64,6 +64,8 @@ def random_pipeline_case(rng, max_windows=40, want_saver=None, want_stop=False, 
     elif line_mode == "all":
         case["line_scope"] = "all"
         case["line_p"] = rng.choice((0.002, 0.01, 0.03))
+    if allow_hop and rng.random() < 0.12 and case["block"] > 1 and not case["partial"] and not many_detections:
+        case["hop"] = rng.randint(1, case["block"] - 1)  # overlapping analysis windows
     case["stop"] = None
     if want_stop:
         nblocks = len(case["v"])
@@ -95,8 +97,23 @@ def split_reference(data, case):
         rd = auditok.AudioReader(src, block_dur=case["w"])
         kw = {k: v for k, v in AC.split_kwargs(case).items() if k != "analysis_window"}
         return [(i + 1, r.start, r.end, bytes(r)) for i, r in enumerate(auditok.split(rd, **kw))]
+    if case.get("hop"):
+        # an overlapping reader: the reference is split() over an identical reader
+        rd = auditok.AudioReader(data, block_dur=case["w"], hop_dur=case["hop"] / case["rate"], **AC.audio_kwargs(case))
+        kw = {k: v for k, v in AC.split_kwargs(case).items() if k != "analysis_window"}
+        return [(i + 1, r.start, r.end, bytes(r)) for i, r in enumerate(auditok.split(rd, **kw))]
     kw = AC.split_kwargs(case)
     return [(i + 1, r.start, r.end, bytes(r)) for i, r in enumerate(auditok.split(data, **kw, **AC.audio_kwargs(case)))]
+
+
+def consumed_audio(case, blocks):
+    """The part of the source audio that the blocks read so far cover (with an overlapping reader consecutive blocks
+    share block-hop samples)."""
+    blocks = [b for b in blocks if b is not None]
+    if not case.get("hop") or not blocks:
+        return b"".join(blocks)
+    keep = (case["block"] - case["hop"]) * case["width"] * case["channels"]
+    return blocks[0] + b"".join(b[keep:] for b in blocks[1:])
 
 
 def run_pipeline(case, data, tmpdir, script_override=None, decisions=None, strategy=None):
@@ -111,15 +128,18 @@ def run_pipeline(case, data, tmpdir, script_override=None, decisions=None, strat
     holder = {}
 
     def script(sched):
+        rkw = {"block_dur": case["w"]}
+        if case.get("hop"):
+            rkw["hop_dur"] = case["hop"] / case["rate"]
         if case.get("short_reads"):
             src0 = ShortReadSource(data, case["rate"], case["width"], case["channels"]).vf_init(case["short_reads"])
-            reader = H.SchedReader(src0, block_dur=case["w"]).vf_init(sched)
+            reader = H.SchedReader(src0, **rkw).vf_init(sched)
         elif case.get("close_fault"):
             src0 = H.FaultyCloseSource(data, case["rate"], case["width"], case["channels"])
-            reader = H.SchedReader(src0, block_dur=case["w"]).vf_init(sched)
+            reader = H.SchedReader(src0, **rkw).vf_init(sched)
             src0.vf_reader = reader
         else:
-            reader = H.SchedReader(data, block_dur=case["w"], **AC.audio_kwargs(case)).vf_init(sched)
+            reader = H.SchedReader(data, **rkw, **AC.audio_kwargs(case)).vf_init(sched)
         holder["reader"] = reader
         src = reader
         saver = None
@@ -251,6 +271,7 @@ def small_pipeline_case(rng, nblocks, observers, saver, stop_after=None):
         case["saver"] = {"cache_size_sec": rng.choice((0.0001, 0.2, 100.0))}
     case["stop"] = None if stop_after is None else {"after_reads": stop_after, "extra_steps": 0}
     case["line_p"] = 0.0
+    case.pop("hop", None)
     case["strategy"] = "systematic"
     return case
 
